@@ -445,6 +445,57 @@ func Cow(p *core.Prog, r *core.Report) {
 			if !bad {
 				r.OK(rule, site+":errcheck", p.Pos(c.Pos()), "the expression is used only where the compile error is known to be nil")
 			}
+			// isolation: inside a loop over several patterns, a pattern that does not compile must not end the
+			// loop — the patterns after it (in map order) would never be consulted
+			if errV != nil {
+				var loop map[*ssa.BasicBlock]bool
+				for _, L := range allLoopsOf(f) {
+					if L[c.Block()] && (loop == nil || len(L) < len(loop)) {
+						loop = L
+					}
+				}
+				if loop != nil {
+					leaves := false
+					for _, u := range core.Refs(errV) {
+						bo, ok := u.(*ssa.BinOp)
+						if !ok || !core.IsNilConst(bo.Y) {
+							continue
+						}
+						for _, iu := range core.Refs(bo) {
+							iff, ok := iu.(*ssa.If)
+							if !ok {
+								continue
+							}
+							// the err != nil edge
+							idx := 0
+							if bo.Op == token.EQL {
+								idx = 1
+							}
+							tgt := iff.Block().Succs[idx]
+							// follow straight-line blocks
+							for n := 0; n < 6 && loop[tgt] && len(tgt.Succs) == 1 && tgt != c.Block(); n++ {
+								nxt := tgt.Succs[0]
+								if !loop[nxt] {
+									tgt = nxt
+									break
+								}
+								if nxt.Dominates(tgt) { // back to the header
+									break
+								}
+								tgt = nxt
+							}
+							if !loop[tgt] && !endsInPanic(tgt) {
+								leaves = true
+							}
+						}
+					}
+					if leaves {
+						r.Bad(rule, site+":error-isolated", p.Pos(c.Pos()), "inside a loop over patterns, the compile-error branch leaves the loop: one invalid pattern prevents the patterns that come after it (in map iteration order) from being matched at all")
+					} else {
+						r.OK(rule, site+":error-isolated", p.Pos(c.Pos()), "a pattern that does not compile is skipped and the loop over the other patterns goes on")
+					}
+				}
+			}
 		})
 	}
 	r.Count("cow_compile_call_sites", nSites)
